@@ -156,13 +156,15 @@ func parseParams(s string) map[string]int {
 
 func defaultInitPkgs() map[string]bool {
 	return map[string]bool{
-		"github.com/ClickHouse/ch-go/proto":    true,
-		"github.com/ClickHouse/ch-go":          true,
-		"github.com/ClickHouse/ch-go/compress": true,
-		"github.com/ClickHouse/ch-go/chpool":   true,
-		"strings":                              true,
-		"strconv":                              true,
-		"time":                                 true,
-		"github.com/jackc/puddle/v2":           true,
+		"github.com/ClickHouse/ch-go/proto":            true,
+		"github.com/ClickHouse/ch-go":                  true,
+		"github.com/ClickHouse/ch-go/compress":         true,
+		"github.com/ClickHouse/ch-go/chpool":           true,
+		"github.com/ClickHouse/ch-go/otelch":           true,
+		"github.com/ClickHouse/ch-go/internal/version": true,
+		"strings":                    true,
+		"strconv":                    true,
+		"time":                       true,
+		"github.com/jackc/puddle/v2": true,
 	}
 }
